@@ -29,6 +29,7 @@ type c10Entry struct {
 	Serving int `json:"serving"` // 0 nil, 1 true, 2 false
 	Node    int `json:"node"`    // 0 me, 1 other, 2 nil
 	Addrs   int `json:"addrs"`   // 1 {a}, 2 {b}, 3 {a,b}
+	Term    int `json:"terminating,omitempty"` // 0 nil, 1 true (enumerated with ready=false only, as Kubernetes publishes it)
 }
 
 type c10Case struct {
@@ -57,7 +58,7 @@ func tri(x int) *bool {
 func (c *c10Case) build() (*config.Pool, *v1.Service, []discovery.EndpointSlice, map[string]*v1.Node) {
 	var eps []discovery.Endpoint
 	for _, e := range c.Entries {
-		ep := discovery.Endpoint{Conditions: discovery.EndpointConditions{Ready: tri(e.Ready), Serving: tri(e.Serving)}}
+		ep := discovery.Endpoint{Conditions: discovery.EndpointConditions{Ready: tri(e.Ready), Serving: tri(e.Serving), Terminating: tri(e.Term)}}
 		switch e.Node {
 		case 0:
 			n := spkMe
@@ -279,7 +280,10 @@ func TestVerif_C10(t *testing.T) {
 		for s := 0; s < 3; s++ {
 			for n := 0; n < 3; n++ {
 				for a := 1; a <= 3; a++ {
-					entries = append(entries, c10Entry{r, s, n, a})
+					entries = append(entries, c10Entry{r, s, n, a, 0})
+					if r == 2 {
+						entries = append(entries, c10Entry{r, s, n, a, 1}) // a pod shutting down: not ready, terminating, serving or not
+					}
 				}
 			}
 		}
